@@ -659,7 +659,7 @@ func c20EachCompared(c *core.Ctx, tp *packages.Package, fn *an.Fn, name, varg st
 			cuts := false
 			ast.Inspect(fs.Body, func(m ast.Node) bool {
 				if call, ok := m.(*ast.CallExpr); ok {
-					if o := an.Callee(f.Info(), call); o != nil && (o.Name() == "stringsCut" || o.Name() == "Cut") {
+					if o := an.Callee(f.Info(), call); o != nil && (an.PinnedName(o) == "stringsCut" || o.Name() == "Cut") {
 						cuts = true
 					}
 				}
